@@ -13,6 +13,8 @@
     the expected one, the all-bits mask being the datasheet's defined mask of that register;
     the model's numeric encoders are those patterns (`sem*`, the reading of six Rust token
     patterns, is the trusted part).
+  * 37 decoders (`fn(&self) -> bool | Enum`): the 32 `intersects(MASK)` tests use the model's mask
+    constants; `scale()`, `odr()` and the three `src()` agree with the model on all 256 contents.
   The chain  source =(translator)= GeneratedEnc =(this file, kernel)= Regs.lean =(Thm/C02)=
   Datasheet.lean  ties C02 / C09's encoding layer to /repo's current text, not only to sampled
   runs; the builders' bookkeeping above it stays tied by the differential check.
@@ -238,6 +240,37 @@ theorem enc_numeric_model :
 
 /-- nothing was skipped: 31 + 61 + 38 = all 130 `with_*` encoders of the configuration registers -/
 theorem enc_counts : Enc.counts = (31, 61, 38) := by decide
+
+
+/-! ## decoders (`fn(&self) -> bool | Enum`), translated the same way -/
+
+/-- the 32 `self.intersects(MASK)` decoders test the model's mask constants (`has b m`) -/
+theorem dec_flags :
+    [Enc.IntConfig0_get_dta_rdy_int, Enc.IntConfig0_get_fwm_int, Enc.IntConfig0_get_ffull_int, Enc.IntConfig0_get_gen2_int, Enc.IntConfig0_get_gen1_int, Enc.IntConfig0_get_orientch_int, Enc.IntConfig1_get_actch_int, Enc.IntConfig1_get_s_tap_int, Enc.IntConfig1_get_d_tap_int, Enc.IntConfig1_get_step_int, Enc.Int1Map_get_drdy_int, Enc.Int1Map_get_fwm_int, Enc.Int1Map_get_ffull_int, Enc.Int1Map_get_gen2_int, Enc.Int1Map_get_gen1_int, Enc.Int1Map_get_orientch_int, Enc.Int1Map_get_wkup_int, Enc.Int2Map_get_drdy_int, Enc.Int2Map_get_fwm_int, Enc.Int2Map_get_ffull_int, Enc.Int2Map_get_gen2_int, Enc.Int2Map_get_gen1_int, Enc.Int2Map_get_orientch_int, Enc.Int2Map_get_wkup_int, Enc.Int12Map_get_actch_int2, Enc.Int12Map_get_actch_int1, Enc.Int12Map_get_tap_int2, Enc.Int12Map_get_tap_int1, Enc.Int12Map_get_step_int2, Enc.Int12Map_get_step_int1, Enc.FifoPwrConfig_get_fifo_pwr_disable, Enc.WakeupIntConfig0_get_wkup_int_en]
+    = [(R.ic0_DRDY).toNat, (R.ic0_FWM).toNat, (R.ic0_FFULL).toNat, (R.ic0_GEN2).toNat, (R.ic0_GEN1).toNat, (R.ic0_ORIENTCH).toNat, (R.ic1_ACTCH).toNat, (R.ic1_STAP).toNat, (R.ic1_DTAP).toNat, (R.ic1_STEP).toNat, (R.map_DRDY).toNat, (R.map_FWM).toNat, (R.map_FFULL).toNat, (R.map_GEN2).toNat, (R.map_GEN1).toNat, (R.map_ORIENTCH).toNat, (R.map_WKUP).toNat, (R.map_DRDY).toNat, (R.map_FWM).toNat, (R.map_FFULL).toNat, (R.map_GEN2).toNat, (R.map_GEN1).toNat, (R.map_ORIENTCH).toNat, (R.map_WKUP).toNat, (R.m12_ACTCH2).toNat, (R.m12_ACTCH1).toNat, (R.m12_TAP2).toNat, (R.m12_TAP1).toNat, (R.m12_STEP2).toNat, (R.m12_STEP1).toNat, (R.fpwr_READ_DISABLE).toNat, (R.wk0_AXES).toNat] := by decide +kernel
+
+def decodeIf {α : Type} (vs : List α) (d : α) (g : Nat × Nat × Nat) (b : Byte) : α :=
+  if (b &&& BitVec.ofNat 8 g.1) != 0#8 then vs.getD g.2.1 d else vs.getD g.2.2 d
+
+def decodeTable {α : Type} (vs : List α) (d : α) (g : Nat × Nat × List (Nat × Nat) × Nat) (b : Byte) : α :=
+  let code := ((b &&& BitVec.ofNat 8 g.1) >>> g.2.1).toNat
+  match g.2.2.1.find? (fun p => p.1 == code) with
+  | some p => vs.getD p.2 d
+  | none => vs.getD g.2.2.2 d
+
+/-- the enum decoders, as functions on all 256 register contents (variants in declaration order) -/
+theorem dec_enums :
+    ((List.range 256).all fun n =>
+      let b := BitVec.ofNat 8 n
+      R.g0_src b == decodeIf [DataSource.filt1, .filt2, .filt2Lp] .filt1 Enc.Gen1IntConfig0_get_src b &&
+      R.g0_src b == decodeIf [DataSource.filt1, .filt2, .filt2Lp] .filt1 Enc.Gen2IntConfig0_get_src b &&
+      R.ac1_src b == decodeIf [DataSource.filt1, .filt2, .filt2Lp] .filt1 Enc.ActChgConfig1_get_src b &&
+      R.acc1_scale b == decodeTable [Scale.r2g, .r4g, .r8g, .r16g] .r2g Enc.AccConfig1_get_scale b &&
+      R.acc1_odr b == decodeTable [ODR.hz12_5, .hz25, .hz50, .hz100, .hz200, .hz400, .hz800] .hz12_5 Enc.AccConfig1_get_odr b) = true := by
+  decide +kernel
+
+/-- all 37 decoders: 32 + 3 + 2 -/
+theorem dec_counts : Enc.decoderCounts = (32, 3, 2) := by decide
 
 end Thm
 end Bma400
